@@ -47,6 +47,14 @@ def ofPass (bad : Bytes → Bool) (st : RState) : Gen.PassOut → RResult
         let r := recv Gen.MAGIC Gen.MAX_MESSAGE_SIZE bad ⟨after.1, after.2.1, after.2.2⟩
         ⟨r.st, payload :: r.payloads, r.err⟩
 
+/-- closes a leaf of the case analysis: the translated pass, with the case's facts, reduces to the model's result. The first
+alternative is the shape of the pinned source; the others absorb equivalent ways of writing the tests -/
+macro "recv_leaf" : tactic => `(tactic| first
+  | (simp_all [Gen.receive_pass, ofPass]; done)
+  | (simp_all [Gen.receive_pass, ofPass] <;> omega)
+  | (simp_all [Gen.receive_pass, ofPass] <;> grind)
+  | (simp [Gen.receive_pass, ofPass] <;> grind))
+
 theorem recv_as_translated (bad : Bytes → Bool) (st : RState) :
     recv Gen.MAGIC Gen.MAX_MESSAGE_SIZE bad st = ofPass bad st (Gen.receive_pass st.buffer st.magicRead st.len) := by
   obtain ⟨buffer, magicRead, len⟩ := st
@@ -56,54 +64,45 @@ theorem recv_as_translated (bad : Bytes → Bool) (st : RState) :
     · have hs : settle Gen.MAGIC Gen.MAX_MESSAGE_SIZE ⟨buffer, magicRead, len⟩ = .ok ⟨buffer, magicRead, len⟩ := by
         simp only [settle, phaseM, phaseL, h1, h3, Bool.false_eq_true, ↓reduceIte]
       rw [recv_of_settle _ _ _ _ _ hs]
-      simp only [Gen.receive_pass, ofPass, h1, h3, ge_iff_le, Bool.false_eq_true, ↓reduceIte]
       cases len with
-      | none => simp
+      | none => recv_leaf
       | some n =>
-        by_cases hn : n ≤ buffer.length <;> cases hb : bad (List.take n buffer) <;> simp [hn, hb]
+        by_cases hn : n ≤ buffer.length <;> cases hb : bad (List.take n buffer) <;> recv_leaf
     · by_cases h4 : bytesToNat (buffer.take 4) > Gen.MAX_MESSAGE_SIZE
       · have hs : settle Gen.MAGIC Gen.MAX_MESSAGE_SIZE ⟨buffer, magicRead, len⟩ = .error .tooBig := by
           simp only [settle, phaseM, phaseL, h1, h3, h4, Bool.false_eq_true, ↓reduceIte]
         rw [recv_err _ _ _ hs]
-        simp only [Gen.receive_pass, ofPass, h1, h3, h4, ge_iff_le, Bool.false_eq_true, decide_true, ↓reduceIte]
-        simp
+        recv_leaf
       · have hs : settle Gen.MAGIC Gen.MAX_MESSAGE_SIZE ⟨buffer, magicRead, len⟩ =
             .ok ⟨buffer.drop 4, magicRead, some (bytesToNat (buffer.take 4))⟩ := by
           simp only [settle, phaseM, phaseL, h1, h3, h4, Bool.false_eq_true, ↓reduceIte]
         rw [recv_of_settle _ _ _ _ _ hs]
-        simp only [Gen.receive_pass, ofPass, h1, h3, h4, ge_iff_le, Bool.false_eq_true, decide_false, ↓reduceIte]
         by_cases hn : bytesToNat (List.take 4 buffer) ≤ buffer.length - 4 <;>
-          cases hb : bad (List.take (bytesToNat (List.take 4 buffer)) (List.drop 4 buffer)) <;> simp [hn, hb]
+          cases hb : bad (List.take (bytesToNat (List.take 4 buffer)) (List.drop 4 buffer)) <;> recv_leaf
   · by_cases h2 : buffer.take 4 = Gen.MAGIC
     · cases h3 : (len.isNone && decide (4 ≤ (buffer.drop 4).length))
       · have hs : settle Gen.MAGIC Gen.MAX_MESSAGE_SIZE ⟨buffer, magicRead, len⟩ = .ok ⟨buffer.drop 4, true, len⟩ := by
           simp only [settle, phaseM, phaseL, h1, h2, h3, Bool.false_eq_true, ↓reduceIte, not_true_eq_false, ne_eq]
         rw [recv_of_settle _ _ _ _ _ hs]
-        simp only [Gen.receive_pass, ofPass, h1, h2, h3, ge_iff_le, Bool.false_eq_true, ↓reduceIte, ne_eq, not_true_eq_false,
-          decide_false]
         cases len with
-        | none => simp
+        | none => recv_leaf
         | some n =>
-          by_cases hn : n ≤ buffer.length - 4 <;> cases hb : bad (List.take n (List.drop 4 buffer)) <;> simp [hn, hb]
+          by_cases hn : n ≤ buffer.length - 4 <;> cases hb : bad (List.take n (List.drop 4 buffer)) <;> recv_leaf
       · by_cases h4 : bytesToNat ((buffer.drop 4).take 4) > Gen.MAX_MESSAGE_SIZE
         · have hs : settle Gen.MAGIC Gen.MAX_MESSAGE_SIZE ⟨buffer, magicRead, len⟩ = .error .tooBig := by
             simp only [settle, phaseM, phaseL, h1, h2, h3, h4, Bool.false_eq_true, ↓reduceIte, not_true_eq_false, ne_eq]
           rw [recv_err _ _ _ hs]
-          simp only [Gen.receive_pass, ofPass, h1, h2, h3, h4, ge_iff_le, Bool.false_eq_true, ↓reduceIte, ne_eq,
-            not_true_eq_false, decide_false, decide_true]
-          simp
+          recv_leaf
         · have hs : settle Gen.MAGIC Gen.MAX_MESSAGE_SIZE ⟨buffer, magicRead, len⟩ =
               .ok ⟨(buffer.drop 4).drop 4, true, some (bytesToNat ((buffer.drop 4).take 4))⟩ := by
             simp only [settle, phaseM, phaseL, h1, h2, h3, h4, Bool.false_eq_true, ↓reduceIte, not_true_eq_false, ne_eq]
           rw [recv_of_settle _ _ _ _ _ hs]
-          simp only [Gen.receive_pass, ofPass, h1, h2, h3, h4, ge_iff_le, Bool.false_eq_true, ↓reduceIte, ne_eq,
-            not_true_eq_false, decide_false]
           by_cases hn : bytesToNat (List.take 4 (List.drop 4 buffer)) ≤ buffer.length - 8 <;>
             cases hb : bad (List.take (bytesToNat (List.take 4 (List.drop 4 buffer))) (List.drop 8 buffer)) <;>
-              simp [hn, hb]
+              recv_leaf
     · have hs : settle Gen.MAGIC Gen.MAX_MESSAGE_SIZE ⟨buffer, magicRead, len⟩ = .error .magic := by
         simp only [settle, phaseM, h1, h2, ↓reduceIte, not_false_eq_true, ne_eq]
       rw [recv_err _ _ _ hs]
-      simp only [Gen.receive_pass, ofPass, h1, h2, ge_iff_le, ↓reduceIte, ne_eq, not_false_eq_true, decide_true]
+      recv_leaf
 
 end GenTie
